@@ -204,15 +204,20 @@ def plan_C19(tier, seed):
 
 def plan_C05(tier, seed):
     j = cod_job("c05", "RT", 1 if tier == "quick" else 2, ["RoundTripKeepsMeaning"], workers=8)
+    rd = cod_job("c05", "RD", 1, [], workers=2)
     return dict(
-        tlc=[j], parallel=1,
-        replay=[dict(name="c05_replay", family="roundtrip", inputs=[j["name"]])],
+        tlc=[j, rd], parallel=2,
+        replay=[dict(name="c05_replay", family="roundtrip", inputs=[j["name"]]),
+                dict(name="c05_documents", family="rawdoc", inputs=[rd["name"]])],
         rule="Schema VALUES built as Go literals: every exported field in every state its type allows (nil / empty / "
              "one / two elements; const pointer-to-nil; default null; Type xor Types incl. empty; Items xor ItemsArray; "
              "Defs xor Definitions; dependency maps; Extra), singly, nested under properties/items/allOf and (thorough) in "
              "pairs; checks: Marshal emits exactly the keywords Codec.tla predicts, Unmarshal(Marshal(s)) marshals to the same "
              "bytes, and the verdict vectors of s, of its round trip and of L0 agree on the instance pool; non-trivial = "
-             "discriminating vector; distinct by marshaled bytes",
+             "discriminating vector; distinct by marshaled bytes. Document side (RD): 35 document texts exercising every documented "
+             "normalisation (boolean forms, integral floats, exponents, omitted zero-valued keywords, items/dependencies unions, "
+             "unknown keywords, const null): Marshal(Unmarshal(d)) must equal the predicted normal form as a JSON value, a second "
+             "round trip must be byte-identical and verdicts must be unchanged",
         exhaustive=True, assumptions=["TLC", "harness builder of Schema literals", "encoding/json"])
 
 
